@@ -418,6 +418,10 @@ Section SurveyMachine.
   Definition frq_nonempty (c : cube) (n1 n2 k : nat) : bool :=
     existsb (fun i => existsb (fun j => is_val (cget c i j k)) (seq 0 n2)) (seq 0 n1).
 
+  (* np.isfinite(data).any() for data of shape (n1, n2, n3) *)
+  Definition any_finite (c : cube) (n1 n2 n3 : nat) : bool :=
+    existsb (fun i => src_nonempty c n2 n3 i) (seq 0 n1).
+
   Definition select (s : nat) (sS sR sF : option (list Z)) (rm : bool) (w : world)
     : world * outcome :=
     match nth_error (svs w) s with
@@ -428,7 +432,7 @@ Section SurveyMachine.
       | Some (w1, sv1) =>
         let ob := deref (hdat w1) (obs sv1) in
         let '(n1, n2, n3) := shape sv1 in
-        if rm && cany is_val ob then
+        if rm && any_finite ob n1 n2 n3 then
           let ks := keep_keys (src_nonempty ob n2 n3) (src sv1) in
           let kr := keep_keys (rec_nonempty ob n1 n3) (rec sv1) in
           let kf := keep_keys (frq_nonempty ob n1 n2) (frq sv1) in
@@ -472,10 +476,102 @@ Section SurveyMachine.
     | o :: t => let '(w1, r) := step inplace o w in (r, w1) :: trace inplace t w1
     end.
 
+  (* ------------------------------------- specification vocabulary (C13) *)
+  (* access BY LABEL: the entry of an array that belongs to source key a,
+     receiver key b, frequency key d (None: some key is not in the survey) *)
+  Definition lget (c : cube) (ks kr kf : list Z) (a b d : Z) : option cell :=
+    match pos_of ks a, pos_of kr b, pos_of kf d with
+    | Some i, Some j, Some k => Some (cget c i j k)
+    | _, _, _ => None
+    end.
+  Definition sv_lget (h : list cube) (sv : survey) (r : nat) (a b d : Z) : option cell :=
+    lget (deref h r) (src sv) (rec sv) (frq sv) a b d.
+  Definition is_val_o (c : option cell) : bool :=
+    match c with Some (V _ _) => true | _ => false end.
+
+  (* array r1 of survey sv1 (heap h1) agrees with array r of sv (heap h) on
+     every label triple of sv1 *)
+  Definition same_by_label (h1 : list cube) (sv1 : survey) (r1 : nat)
+                           (h : list cube) (sv : survey) (r : nat) : Prop :=
+    forall a b d, In a (src sv1) -> In b (rec sv1) -> In d (frq sv1) ->
+                  sv_lget h1 sv1 r1 a b d = sv_lget h sv r a b d.
+  Definition same_by_label_o (h1 : list cube) (sv1 : survey) (r1 : option nat)
+                             (h : list cube) (sv : survey) (r : option nat) : Prop :=
+    match r1, r with
+    | Some r1, Some r => same_by_label h1 sv1 r1 h sv r
+    | None, None => True
+    | _, _ => False
+    end.
+  (* survey sv1 (in world w1) is the restriction BY LABEL of sv (in w): its keys
+     are keys of sv, and observed data, every named data set, noise-floor /
+     relative-error arrays and explicit std agree on all its label triples;
+     the attributes are the same *)
+  Definition sub_by_label (w1 : world) (sv1 : survey) (w : world) (sv : survey) : Prop :=
+    incl (src sv1) (src sv) /\ incl (rec sv1) (rec sv) /\ incl (frq sv1) (frq sv) /\
+    same_by_label (hdat w1) sv1 (obs sv1) (hdat w) sv (obs sv) /\
+    Forall2 (fun p1 p => fst p1 = fst p /\
+                         same_by_label (hdat w1) sv1 (snd p1) (hdat w) sv (snd p))
+            (named sv1) (named sv) /\
+    nf_attr sv1 = nf_attr sv /\ re_attr sv1 = re_attr sv /\
+    same_by_label_o (hset w1) sv1 (nf_arr sv1) (hset w) sv (nf_arr sv) /\
+    same_by_label_o (hset w1) sv1 (re_arr sv1) (hset w) sv (re_arr sv) /\
+    same_by_label_o (hset w1) sv1 (std_arr sv1) (hset w) sv (std_arr sv).
+
+  Definition chosen (keys : list Z) (s : option (list Z)) : list Z :=
+    match s with None => keys | Some l => l end.
+  (* selecting s2 from a selection s1 *)
+  Definition compose_sel (s1 s2 : option (list Z)) : option (list Z) :=
+    match s2 with Some l => Some l | None => s1 end.
+
+  (* remove_empty, by label: a source key survives iff some chosen receiver /
+     frequency has a value for it, etc. *)
+  Definition src_has_data (h : list cube) (sv : survey) (kr kf : list Z) (a : Z) : bool :=
+    existsb (fun b => existsb (fun d => is_val_o (sv_lget h sv (obs sv) a b d)) kf) kr.
+  Definition rec_has_data (h : list cube) (sv : survey) (ks kf : list Z) (b : Z) : bool :=
+    existsb (fun a => existsb (fun d => is_val_o (sv_lget h sv (obs sv) a b d)) kf) ks.
+  Definition frq_has_data (h : list cube) (sv : survey) (ks kr : list Z) (d : Z) : bool :=
+    existsb (fun a => existsb (fun b => is_val_o (sv_lget h sv (obs sv) a b d)) kr) ks.
+  Definition any_data (h : list cube) (sv : survey) (ks kr kf : list Z) : bool :=
+    existsb (fun a => src_has_data h sv kr kf a) ks.
+
+  (* add_noise: the array it writes to, its previous content, and the value
+     every entry must have afterwards *)
+  Definition std2_at (w : world) (sv : survey) (i j k : nat) : option cell :=
+    match std2 w sv with Some c => Some (cget c i j k) | None => None end.
+  Definition an_tgt (w : world) (sv : survey) (p : anp) : nat :=
+    match a_to p with
+    | TObs => obs sv
+    | TNamed n => match lookup n (named sv) with Some r => r | None => length (hdat w) end
+    end.
+  Definition an_t0 (w : world) (sv : survey) (p : anp) (i j k : nat) : cell :=
+    match a_to p with
+    | TObs => cget (deref (hdat w) (obs sv)) i j k
+    | TNamed n => match lookup n (named sv) with
+                  | Some r => cget (deref (hdat w) r) i j k
+                  | None => zero
+                  end
+    end.
+  Definition an_spec_cell (cut : bool) (sd : option cell) (t0 nz : cell) : cell :=
+    if cut then NaN
+    else match sd with
+         | None => t0                      (* no standard deviation: untouched *)
+         | Some NaN => NaN
+         | Some (V _ _) => cadd t0 nz
+         end.
+
+  (* invariants *)
+  Definition drefs_ok (n : nat) (sv : survey) : Prop :=
+    obs sv < n /\ Forall (fun p => snd p < n) (named sv).
+  Definition wfd (w : world) : Prop := Forall (drefs_ok (length (hdat w))) (svs w).
+  Definition keys_ok (sv : survey) : Prop :=
+    NoDup (src sv) /\ NoDup (rec sv) /\ NoDup (frq sv).
+  Definition wfk (w : world) : Prop := Forall keys_ok (svs w).
+
   (* well-formed: every setting reference of every survey points into hset *)
   Definition opt_lt (r : option nat) (n : nat) : Prop :=
     match r with Some r => r < n | None => True end.
   Definition refs_ok (n : nat) (sv : survey) : Prop :=
     opt_lt (nf_arr sv) n /\ opt_lt (re_arr sv) n /\ opt_lt (std_arr sv) n.
   Definition wf (w : world) : Prop := Forall (refs_ok (length (hset w))) (svs w).
+  Definition wf_all (w : world) : Prop := wf w /\ wfd w /\ wfk w.
 End SurveyMachine.
